@@ -91,11 +91,17 @@ impl CanonicalAssets {
     }
 
     pub fn from_class_and_amount(class: AssetClass, amount: i128) -> Self {
+        // zero amounts are immaterial: keep the map free of them so that equality
+        // (derived, structural) doesn't depend on how a value was constructed
+        if amount == 0 {
+            return Self::empty();
+        }
+
         Self(HashMap::from([(class, amount)]))
     }
 
     pub fn from_naked_amount(amount: i128) -> Self {
-        Self(HashMap::from([(AssetClass::Naked, amount)]))
+        Self::from_class_and_amount(AssetClass::Naked, amount)
     }
 
     pub fn from_named_asset(asset_name: &[u8], amount: i128) -> Self {
@@ -103,10 +109,7 @@ impl CanonicalAssets {
             return Self::from_naked_amount(amount);
         }
 
-        Self(HashMap::from([(
-            AssetClass::Named(asset_name.to_vec()),
-            amount,
-        )]))
+        Self::from_class_and_amount(AssetClass::Named(asset_name.to_vec()), amount)
     }
 
     pub fn from_defined_asset(policy: &[u8], asset_name: &[u8], amount: i128) -> Self {
@@ -114,10 +117,10 @@ impl CanonicalAssets {
             return Self::from_named_asset(asset_name, amount);
         }
 
-        Self(HashMap::from([(
+        Self::from_class_and_amount(
             AssetClass::Defined(policy.to_vec(), asset_name.to_vec()),
             amount,
-        )]))
+        )
     }
 
     pub fn from_asset(policy: Option<&[u8]>, name: Option<&[u8]>, amount: i128) -> Self {
